@@ -144,8 +144,12 @@ def exp_sel(ufv, rr, di, sd):
     return b, ic, lo
 
 
-def judge_sel(msg, ufv, rr, di, sd):
+def judge_sel(msg, ufv, rr, di, sd, addr=None):
     sel = ufv in (4, 5, 20, 21)
+    if addr is not None:
+        # address first, then the fields, then the address again - all on the same string
+        if call(U.uplink_icao, msg) != ("ok", "%06X" % addr):
+            return "uplink_icao:wrong_address:before_fields"
     r = call(U.uf, msg)
     if r != ("ok", min(ufv, 24)):
         return "uf"
@@ -214,11 +218,14 @@ def w_fields(arg):
                 sds = [(iis << 12) | (rrsv << 8) | (los << 6) | rest for iis in range(16) for rrsv in range(16) for los in (0, 1) for rest in (0, 0xBF & ~0x40)][::1 if ufv in (4, 20) else 3]
             for sd in sds:
                 k += 1
-                msg = build_sel(ufv, k % 8, rr, di, sd, n, [0x406B90, 0xFFFFFF, 1][k % 3], [0, (1 << 56) - 1][k % 2])
+                ad = [0x406B90, 0xFFFFFF, 1][k % 3]
+                msg = build_sel(ufv, k % 8, rr, di, sd, n, ad, [0, (1 << 56) - 1][k % 2])
                 acc.n += 1
-                s = judge_sel(msg, ufv, rr, di, sd)
+                s = judge_sel(msg, ufv, rr, di, sd, ad if k % 2 else None)
+                if not s and k % 2 and call(U.uplink_icao, msg) != ("ok", "%06X" % ad):
+                    s = "uplink_icao:wrong_address:after_fields"
                 if s:
-                    acc.bad(s, {"kind": "sel", "msg": msg, "f": [ufv, rr, di, sd]})
+                    acc.bad(s, {"kind": "sel", "msg": msg, "f": [ufv, rr, di, sd], "addr": ad if k % 2 else None})
             acc.out.add((ufv, rr, di))
     return acc.res()
 
@@ -264,7 +271,15 @@ def w_misc(_):
 BASIS = {}
 
 
+def basis():
+    if not BASIS:
+        for n in (56, 112):
+            BASIS[n] = [icao_int(F.hexn(1 << (n - 1 - i), n)) for i in range(n)]
+    return BASIS
+
+
 def w_any(t):
+    basis()
     return {"lin": w_lin, "model": w_model, "addr": w_addr, "fields": w_fields, "misc": w_misc}[t[0]](t[1])
 
 
@@ -318,5 +333,7 @@ def replay(case):
     if k == "uf11":
         s = judge_11(case["msg"], *case["f"])
         return [(s, case)] if s else []
-    s = judge_sel(case["msg"], *case["f"])
+    s = judge_sel(case["msg"], *case["f"], case.get("addr"))
+    if not s and case.get("addr") is not None and call(U.uplink_icao, case["msg"]) != ("ok", "%06X" % case["addr"]):
+        s = "uplink_icao:wrong_address:after_fields"
     return [(s, case), (s + ":bg1", case)] if s else []
